@@ -218,6 +218,7 @@ func scenario(kinds []opKind, init initial, namespacedFlavour bool, bounds []int
 		Name:   name,
 		Desc:   fmt.Sprintf("%d concurrent callers (%s) on one resource, initial state %s, store %s", len(kinds), strings.Join(names, ", "), initNames[init], fl),
 		Bounds: bounds,
+		HB:     true,
 		Body: func(x *explore.X) {
 			ctx := context.Background()
 			log := &hx.Log{}
